@@ -14,24 +14,27 @@ import SaModel.Lemmas.C04FromType
 import SaModel.Lemmas.C04Excl
 import SaModel.Lemmas.C04ScopeLv
 import SaModel.Lemmas.C04SafeDT
+import SaModel.Lemmas.C04Physical
 /-
 C04 — round trip through a type-traced schema is the identity.
 
-The end-to-end statement composes four facts.  Three belong to other models and enter as *hypotheses stated over
-their interfaces* (so the theorem can be discharged when those models are merged); the fourth is proved here.
+The end-to-end statement composes four facts about the REAL model functions (no interface hypothesis is left):
 
-  (H8, C08)  the tracer returns the documented mapping:   fromType o ty = ok fields,  mappingRoot o ty = some fields
-  (H1, C01)  the builder refines the documented mapping:  toMarrow ext fields rows = ok arrs  and row i of the
-             arrays decodes (Arrow reading rules, `Spec.decode`) to `interpRow ext fields rows[i]`
-  (H2, C02)  the reader returns the cast of the decoded content: if row i decodes to `lvs[i]` and reading each
-             `lvs[i]` at `ty` gives `vals[i]`, then `readTyped ty fields arrs = ok vals`
-  (Hinv)     **the Rust → Arrow mapping is injective up to the documented normalisation** (proved here):
-                 interp (mapping ty) (ser ty v) = ok (lv ty v)          `interp_ser`   (SaModel/Lemmas/C04Interp.lean)
+  (H8, C08)  the tracer returns the documented mapping:   `C04_fromType_mapping` (every type, enums included), and it
+             succeeds on every walkable, mappable type within the pass budget: `C04_fromType_ok`
+  (H1, C01)  the builder refines the documented mapping:  `Props.C01.C01_build_decode` + `Props.C03.C03_wf`, their schema
+             side conditions proved for every traced schema (`mapping_side`), `Safe` as the decidable condition `safeFs`
+  (H2, C02)  the reader returns the cast of the decoded content: `Props.C02.read_typed_decode` with `cast_lvO`,
+             `newFields_of_wf`, `utf8Ok_lvO`
+  (Hinv)     **the Rust → Arrow mapping is injective up to the documented normalisation**:
+                 interp (mapping ty) (ser ty v) = ok (lvO o ty v)      `interp_serO`  (SaModel/Lemmas/C04Interp.lean)
                  unser ty (lv ty v)            = some (norm ty v)      `unser_lv`     (SaModel/Lemmas/C04Unser.lean)
-             hence  lv ty v = lv ty w → norm ty v = norm ty w.
 
-`norm` is the identity except where `Some(v)` is stored as a null (`Some(None)`, `Some(())`): `norm_eq_self`.
-The second documented exclusion (`None` at a position traced to a Union) is the hypothesis `noneAtUnion … = false`.
+`lvO o` is the option-dependent logical value (an enum without data is stored as its variant NAME under
+`enums_without_data_as_strings`; otherwise `lvO o = lv`).  `norm` is the identity except where `Some(v)` is stored as a null
+(`Some(None)`, `Some(())`): `norm_eq_self`.  The documented exclusion (`None` at a position traced to a Union) is `inScopeU`,
+proved equal to the driver's run-time predicate `noneAtUnion … = false` (`C04_inScopeU_iff`).
+The acceptance half and the end-to-end theorems are in Props/C04Accept.lean.
 -/
 namespace SaModel.Props.C04
 open SaModel SaModel.Build SaModel.Spec SaModel.Roundtrip
@@ -171,7 +174,8 @@ theorem C04_roundtrip_core (c : Trace.Code) (O : Trace.Options) (ext : Ext) (n :
     (hsc : ∀ v ∈ vs, inScopeO (viewOpts O) (.struct n fs) v = true)
     (hext : Lemmas.C03.ExtOK ext)
     (hsafe : ∀ root0, newRoot fields = .ok root0 → Safe root0)
-    (hphys : ∀ a ∈ arrs, Read.physical a = true)
+    (hphys : Spec.wfFields (mappingFields (viewOpts O) fs) (zipCols fields arrs) vs.length = true →
+      Read.physicalFields (zipCols fields arrs) = true)
     (hft : Trace.fromType c O (toTraceTy (.struct n fs)) = .ok fields)
     (htm : toMarrow ext fields (vs.map (ser (.struct n fs))) = .ok arrs) :
     Access.new true fields.length (arrs.map Read.vlen) = .ok vs.length ∧
@@ -245,7 +249,7 @@ theorem C04_roundtrip_core (c : Trace.Code) (O : Trace.Options) (ext : Ext) (n :
     (hwt _ (List.getElem_mem hi)) hsi.1 hsi.2 (by simp [t, mappingDT]) hwfroot
   exact Props.C02.read_typed_decode (toTarget t) (rootArr fields arrs vs.length) i (lvO o t vs[i]) _ hdec
     (by simpa [rootArr, Read.new] using hnewF)
-    (by simpa [rootArr, Read.physical] using zip_physical fields arrs hphys)
+    (by simpa [rootArr, Read.physical] using hphys hcols)
     (utf8Ok_lvO o t vs[i]) hcast
 
 /-- **C04, through the real models** (`Trace.fromType`, `Build.toMarrow`, the reader model `Read.readAs` behind
@@ -290,7 +294,8 @@ theorem C04_roundtrip_partial (c : Trace.Code) (O : Trace.Options) (ext : Ext) (
       readRecord (toTarget (.struct n fs)) fields arrs i = .ok (dvalOf (.struct n fs) (norm (.struct n fs) vs[i])) := by
   intro i hi
   obtain ⟨hacc, hnew, hread⟩ := C04_roundtrip_core c O ext n fs vs fields arrs h0 hfrag hne hwt hsc hext
-    (C04_safe_traced (viewOpts O) fs fields (C04_fromType_fields c O h0 n fs fields hft) hsafe) hphys hft htm
+    (C04_safe_traced (viewOpts O) fs fields (C04_fromType_fields c O h0 n fs fields hft) hsafe)
+    (fun _ => zip_physical fields arrs hphys) hft htm
   simp only [readRecord, hacc, bind, Except.bind]
   rw [hnew]
   simp only [Access.getIdx, ge_iff_le, Nat.not_le.mpr hi, if_false]
@@ -317,7 +322,8 @@ theorem C04_roundtrip_bulk_partial (c : Trace.Code) (O : Trace.Options) (ext : E
     (htm : toMarrow ext fields (vs.map (ser (.struct n fs))) = .ok arrs) :
     readAll (toTarget (.struct n fs)) fields arrs = .ok (vs.map fun v => dvalOf (.struct n fs) (norm (.struct n fs) v)) := by
   obtain ⟨hacc, hnew, hread⟩ := C04_roundtrip_core c O ext n fs vs fields arrs h0 hfrag hne hwt hsc hext
-    (C04_safe_traced (viewOpts O) fs fields (C04_fromType_fields c O h0 n fs fields hft) hsafe) hphys hft htm
+    (C04_safe_traced (viewOpts O) fs fields (C04_fromType_fields c O h0 n fs fields hft) hsafe)
+    (fun _ => zip_physical fields arrs hphys) hft htm
   simp only [readAll, hacc, bind, Except.bind]
   rw [hnew]
   simp only [Props.C13.bulk_eq_items]
@@ -379,6 +385,38 @@ theorem C04_roundtrip_nodict_partial (c : Trace.Code) (O : Trace.Options) (ext :
       readRecord (toTarget (.struct n fs)) fields arrs i = .ok (dvalOf (.struct n fs) (norm (.struct n fs) vs[i])) :=
   C04_roundtrip_partial c O ext n fs vs fields arrs h0 hfrag hne hwt hsc hext
     (C04_safeFs_nodict (viewOpts O) hd he fs) hphys hft htm
+
+/-- the bulk round trip for traced schemas WITHOUT Dictionary columns (`string_dictionary_encoding` and
+`enums_without_data_as_strings` off): `Safe` AND `Read.physical` are derived (`C04_safeFs_nodict`, `physical_traced`: every
+well-formed array of a dictionary-free traced schema is physical); the only hypothesis left besides the documented ones is
+`hext` (discharged at the codec models in `C04_end_to_end_plain`) -/
+theorem C04_roundtrip_bulk_plain_partial (c : Trace.Code) (O : Trace.Options) (ext : Ext) (n : String) (fs : TFields) (vs : List Val)
+    (fields : List Field) (arrs : List Arr)
+    (h0 : O.overwrites = []) (hd : O.string_dictionary_encoding = false) (he : O.enums_without_data_as_strings = false)
+    (hfrag : fragE (.struct n fs) = true) (hne : fs ≠ .nil)
+    (hwt : ∀ v ∈ vs, wt (.struct n fs) v = true)
+    (hsc : ∀ v ∈ vs, inScopeO (viewOpts O) (.struct n fs) v = true)
+    (hext : Lemmas.C03.ExtOK ext)
+    (hft : Trace.fromType c O (toTraceTy (.struct n fs)) = .ok fields)
+    (htm : toMarrow ext fields (vs.map (ser (.struct n fs))) = .ok arrs) :
+    readAll (toTarget (.struct n fs)) fields arrs = .ok (vs.map fun v => dvalOf (.struct n fs) (norm (.struct n fs) v)) := by
+  obtain ⟨hacc, hnew, hread⟩ := C04_roundtrip_core c O ext n fs vs fields arrs h0 hfrag hne hwt hsc hext
+    (C04_safe_traced (viewOpts O) fs fields (C04_fromType_fields c O h0 n fs fields hft) (C04_safeFs_nodict (viewOpts O) hd he fs))
+    (physical_traced (viewOpts O) hd he fs _ _) hft htm
+  simp only [readAll, hacc, bind, Except.bind]
+  rw [hnew]
+  simp only [Props.C13.bulk_eq_items]
+  rw [mapM_ok_of_forall _ (fun i => dvalOf (.struct n fs) (norm (.struct n fs) (vs.getD i .unit))) (List.range vs.length)
+    (fun i hi => by
+      have hi' : i < vs.length := List.mem_range.mp hi
+      rw [hread i hi']
+      simp [List.getD_eq_getElem?_getD, List.getElem?_eq_getElem hi'])]
+  congr 1
+  apply List.ext_getElem
+  · simp
+  · intro i h1 h2
+    have hi' : i < vs.length := by simpa using h1
+    simp [List.getD_eq_getElem?_getD, List.getElem?_eq_getElem hi']
 
 /-! ### non-vacuity -/
 
